@@ -86,6 +86,11 @@ func normFact(c *Term, val bool) Fact {
 		}
 		break
 	}
+	// a branch condition is a boolean: the zero value in that position (a
+	// flag field left out of a struct literal) is false
+	if c.Op == "zero" && len(c.Args) == 0 {
+		c = T("const", "false")
+	}
 	return Fact{normCond(c), val}
 }
 
@@ -446,14 +451,24 @@ func (P *Prog) conjoinCallee(fs factSet, errT *Term) {
 		return // recursion: nothing conjoined
 	}
 	m := map[string]*Term{}
+	m0 := map[string]*Term{} // the same without snapshots: facts keep speaking of the local's fields
+	snapped := false
 	for i, a := range call.Args {
 		m[strconv.Itoa(i)] = a
+		m0[strconv.Itoa(i)] = a
+		if a.Op == "alloc" && a.Snap != nil {
+			m0[strconv.Itoa(i)] = T("alloc", a.S)
+			snapped = true
+		}
 	}
 	for _, f := range r.summary {
 		if !closedOverParams(f.Pred) {
 			continue
 		}
-		fs.add(Fact{normCond(f.Pred.subst(m)), f.Val})
+		fs.add(Fact{normCond(f.Pred.subst(m0)), f.Val})
+		if snapped {
+			fs.add(Fact{normCond(f.Pred.subst(m)), f.Val})
+		}
 	}
 }
 
@@ -500,14 +515,24 @@ func (P *Prog) conjoinBoolCallee(fs factSet, t *Term, val bool) {
 		}
 	}
 	m := map[string]*Term{}
+	m0 := map[string]*Term{}
+	snapped := false
 	for i, a := range call.Args {
 		m[strconv.Itoa(i)] = a
+		m0[strconv.Itoa(i)] = a
+		if a.Op == "alloc" && a.Snap != nil {
+			m0[strconv.Itoa(i)] = T("alloc", a.S)
+			snapped = true
+		}
 	}
 	for _, f := range sum {
 		if !closedOverParams(f.Pred) {
 			continue
 		}
-		fs.add(Fact{normCond(f.Pred.subst(m)), f.Val})
+		fs.add(Fact{normCond(f.Pred.subst(m0)), f.Val})
+		if snapped {
+			fs.add(Fact{normCond(f.Pred.subst(m)), f.Val})
+		}
 	}
 }
 
